@@ -29,7 +29,7 @@ def run(pid, tier, replay=None, repo=None, quiet=False, write=True):
     aerr = None
     try:
         prog = Program() if repo is None else Program(repo)
-        chk = Check(pid, prog, tier=tier, inline_depth=2 if tier == "quick" else 4)
+        chk = Check(pid, prog, tier=tier, inline_depth=6 if tier == "quick" else 8)
         registry.run_property(pid, chk)
         if tier == "thorough" and replay is None:
             from btlint import audit as audit_mod
